@@ -49,7 +49,7 @@ RULE_FAULTS = (
        "macro-pattern-int", "macro-pattern-null", "macro-pattern-missing", "macro-name-missing", "macro-entry-scalar", "macro-pattern-int-extra-file"]
 )
 INPUT_FAULTS = ["input-file-" + f for f in FILE_FAULTS] + ["input-file-utf16"]
-BINARY_FAULTS = ["objdump-absent", "objdump-exit1", "objdump-exit3", "objdump-signal", "objdump-half-then-fail", "objdump-banner-then-fail", "sections-all-absent"]
+BINARY_FAULTS = ["objdump-absent", "objdump-exit1", "objdump-exit3", "objdump-signal", "objdump-half-then-fail", "objdump-banner-then-fail", "sections-all-absent", "archive-unreadable-member"]
 FAULTS = {"assembly": RULE_FAULTS + INPUT_FAULTS, "binary": RULE_FAULTS + INPUT_FAULTS + BINARY_FAULTS}
 FLOORS = {}
 
@@ -352,6 +352,28 @@ def evaluate(case):
             d = sc.path("fakebin_" + kind)
             faults.make_fake_objdump(d, kind, real_text)
             path_override = d + os.pathsep + "/usr/bin" + os.pathsep + "/bin"
+    elif fault == "archive-unreadable-member":
+        # an `ar` archive of a small readable object and a truncated copy of the object that holds the match: objdump prints the
+        # first member's disassembly, reports `file format not recognized` for the second and exits 1 - the input was not disassembled
+        import subprocess
+
+        from vlib.elfw import make_elf
+
+        d_ = os.path.dirname(input_path)
+        with open(input_path, "rb") as f_:
+            whole = f_.read()
+        with open(os.path.join(d_, "c17_good.o"), "wb") as f_:
+            f_.write(make_elf([(".text", bytes.fromhex("f4f4"), True)], [("g", 1, 0)]))
+        with open(os.path.join(d_, "c17_bad.o"), "wb") as f_:
+            f_.write(whole[: 40 + case["pos"] % 24])
+        arch = os.path.join(d_, "c17_faulty.a")
+        if os.path.exists(arch):
+            os.unlink(arch)
+        order = ["c17_good.o", "c17_bad.o"] if case["pos"] % 2 else ["c17_bad.o", "c17_good.o"]
+        if subprocess.run(["ar", "rcD", "c17_faulty.a", *order], cwd=d_, capture_output=True).returncode != 0:
+            ev.tags.append("fault-not-applicable-here")
+            return ev
+        input_path = arch
     elif fault == "sections-all-absent":
         doc2 = jasm_io.make_doc(pattern, config={"sections": [".nosuch_a", ".nosuch_b"]})
         rule_path = sc.write("c17_rule.yaml", jasm_io.rule_text(doc2))
